@@ -20,7 +20,9 @@ EXHAUSTIVE_NOTE = "ASCII-in-host table and the NFKC-delimiter set (computed from
 ASSUMPTIONS = ["grammar validation of hosts given to the constructor / build(authority=) is not demanded beyond the NFKC screen", "case of an IPv6 zone id is kept"]
 
 REGNAME_OK = re.compile(r"(?:[a-z0-9\-._~!$&'()*+,;=]|%[0-9a-f]{2})*\Z")
-ROUTES = ["ctor", "build.host", "build.authority", "with_host", "ctor.defaultport", "ctor.userinfo", "with_host.defaultport", "with_host.same-enc", "with_host.same-ctor"]
+ROUTES = ["ctor", "build.host", "build.authority", "with_host", "ctor.defaultport", "ctor.userinfo", "with_host.defaultport", "with_host.same-enc", "with_host.same-ctor",
+          # the host must survive every rebuild of the authority unchanged
+          "ctor.with_port", "ctor.with_port-none", "ctor.with_user", "ctor.with_password-none", "ctor.with_scheme", "ctor.origin", "build.with_port"]
 
 
 def make(Y, route, text):
@@ -43,6 +45,20 @@ def make(Y, route, text):
         return Y.URL("http://%s:80/p" % text)
     if route == "ctor.userinfo":
         return Y.URL("wss://u:p@%s:443/p?q#f" % text)
+    if route == "ctor.with_port":
+        return Y.URL("http://%s/p" % text).with_port(81)
+    if route == "ctor.with_port-none":
+        return Y.URL("http://u:p@%s/p" % text).with_port(None)
+    if route == "ctor.with_user":
+        return Y.URL("http://%s:8080/p" % text).with_user("u")
+    if route == "ctor.with_password-none":
+        return Y.URL("http://u:p@%s/p" % text).with_password(None)
+    if route == "ctor.with_scheme":
+        return Y.URL("http://%s:80/p" % text).with_scheme("https")
+    if route == "ctor.origin":
+        return Y.URL("http://u:p@%s:81/p?q#f" % text).origin()
+    if route == "build.with_port":
+        return Y.URL.build(scheme="http", host=bare, path="/p").with_port(0)
     if route == "with_host.defaultport":
         return Y.URL("https://u@x.example:443/p").with_host(bare)
     raise AssertionError(route)
